@@ -49,6 +49,8 @@ Expected(ev) ==
     [] ev.op = "concatperm" -> Ok(VList(ev.v.xs \o ev.v.xs))
     \* broadcast_arrays(A, A with its fields declared in the opposite order): fields pair by name, so the second output,
     \* read back in A's field order, is A (C04)
+    [] ev.op = "like" -> VLike(ev.v, ev.T, a.c)
+    [] ev.op = "nantonum" -> VNanToNum(ev.v, ev.T)
     [] ev.op = "bcperm" -> Ok(ev.v)
     \* A[items] through the Python layer's __getitem__ (C01): the same law as the C++ getitem
     [] ev.op = "slice" -> VGetItem(ev.v, ev.T, a.items)
